@@ -145,9 +145,11 @@ type Enc struct {
 	topFrame   *Frame
 	ghost      map[string]string
 	ghostType  map[string]types.Type
+	ghostPre   map[string]string
 	ifaceTypes []types.Type
 	usedTrusted map[string]bool
 	bindErrs   []string
+	houdiniUndecided []string // automatic invariant candidates the solvers could not decide in time
 	requires   []string
 	dummy      *State
 	flagsOff   map[string]bool
